@@ -59,6 +59,10 @@ Theorem C31_res53_in_unit_interval_refuted : exists v, (v < 2 ^ 64)%N /\ B2R (re
 Proof. exact (@res53_in_unit_interval_refuted). Qed.
 Print Assumptions C31_res53_in_unit_interval_refuted.
 
+Theorem C31_res53_equals_one_iff v : (v < 2 ^ 64)%N -> (B2R (res53 v) = 1 <-> (2 ^ 64 - 2 ^ 10 <= v)%N).
+Proof. exact (res53_equals_one_iff v). Qed.
+Print Assumptions C31_res53_equals_one_iff.
+
 Theorem C31_res53_monotone v1 v2 : (v1 <= v2)%N -> (v2 < 2 ^ 64)%N -> B2R (res53 v1) <= B2R (res53 v2).
 Proof. exact (res53_monotone v1 v2). Qed.
 Print Assumptions C31_res53_monotone.
